@@ -975,3 +975,86 @@ func c19r12(rc *core.RC) {
 		rc.Unknown(key, fd.Pos(), "no call of Unmarshal found in buildString")
 	}
 }
+
+// ---- C19.R13 every opcode of a node that carries a query is given the query ----
+
+// InterfaceCode, MarshalJSONCode and MarshalTextCode keep the sub-query that selected them (fieldQuery) and their
+// ToOpcode hands it to the opcode, which passes it on at run time (to the dynamic value, to MarshalJSON(ctx)). The
+// methods choose between several operations (plain, behind a pointer): the query belongs to every one of them. The
+// assignment code.FieldQuery = c.fieldQuery is a statement of the method body itself; inside one arm of the choice it
+// leaves the other operation without the query (a query on &v with v an interface{} selected nothing).
+func c19r13(rc *core.RC) {
+	p := rc.P
+	pk := p.Pkg("encoder")
+	if pk == nil {
+		rc.Unknown("encoder", token.NoPos, "package not found")
+		return
+	}
+	info := pk.TypesInfo
+	n := 0
+	for _, fd := range p.Funcs("encoder") {
+		if fd.Body == nil || fd.Recv == nil || fd.Name.Name != "ToOpcode" || len(fd.Recv.List) != 1 || len(fd.Recv.List[0].Names) != 1 {
+			continue
+		}
+		recv := info.Defs[fd.Recv.List[0].Names[0]]
+		if recv == nil {
+			continue
+		}
+		rt := recv.Type()
+		if pt, ok := rt.(*types.Pointer); ok {
+			rt = pt.Elem()
+		}
+		st, ok := rt.Underlying().(*types.Struct)
+		if !ok {
+			continue
+		}
+		has := false
+		for i := 0; i < st.NumFields(); i++ {
+			if st.Field(i).Name() == "fieldQuery" {
+				has = true
+			}
+		}
+		if !has {
+			continue
+		}
+		n++
+		name := p.FuncName(fd)
+		rc.Touch(name)
+		isHandOver := func(s ast.Stmt) bool {
+			as, ok := s.(*ast.AssignStmt)
+			if !ok || len(as.Lhs) != 1 || len(as.Rhs) != 1 {
+				return false
+			}
+			lf, rf := core.FieldOf(info, as.Lhs[0]), core.FieldOf(info, as.Rhs[0])
+			if lf == nil || rf == nil || lf.Name() != "FieldQuery" || rf.Name() != "fieldQuery" {
+				return false
+			}
+			sel, ok := core.Unparen(as.Rhs[0]).(*ast.SelectorExpr)
+			return ok && core.ObjOf(info, sel.X) == recv
+		}
+		top, nested := false, false
+		for _, s := range fd.Body.List {
+			if isHandOver(s) {
+				top = true
+			}
+		}
+		ast.Inspect(fd.Body, func(m ast.Node) bool {
+			if s, ok := m.(ast.Stmt); ok && isHandOver(s) {
+				nested = true
+			}
+			return true
+		})
+		key := name + "/query-handed-to-every-operation"
+		switch {
+		case top:
+			rc.OK(key, fd.Pos(), "code.FieldQuery = %s.fieldQuery is a statement of the method body: every operation the method chooses carries the query", recv.Name())
+		case nested:
+			rc.Bad(key, fd.Pos(), "the query is handed over inside one arm of the choice between the operations only: the other operation (the value behind a pointer) is encoded without the query that selected it, every member is written")
+		default:
+			rc.Bad(key, fd.Pos(), "the node keeps a sub-query and its ToOpcode never hands it to the opcode")
+		}
+	}
+	if n < 3 {
+		rc.Unknown("encoder/query-nodes", token.NoPos, "found %d ToOpcode methods of nodes with a fieldQuery (confirmed: 3)", n)
+	}
+}
